@@ -27,6 +27,7 @@ def check(chk, thorough=False):
     chk.run('C13.d', 'R-ORDER', 'a transfer is queued and forgotten only when coverage equals [0,total); coverage only grows by the spliced range; keyed by (address, port, id)', lambda ob: c13d(tree, ob), floor=6)
     chk.run('C13.e', 'R-FLOW', 'a datagram is handled message by message: a bundle is cut at its CBOR item boundary, padding / unknown octets skip the rest without queuing', lambda ob: c13e(tree, ob), floor=5)
     chk.run('C13.g', 'R-FLOW', 'a queued bundle is measured at its end and sent from its start; a transfer id of 0 is a transfer id (no truthiness test); received items get local ids only', lambda ob: c13g(tree, ob, UAGENT), floor=4)
+    chk.run('C13.h', 'R-FLOW', 'the send entry queues a file over exactly the octets passed in (byte-array conversion only)', lambda ob: __import__('sa.props.common', fromlist=['entry_fidelity']).entry_fidelity(tree, ob, 'udpcl/agent.py', 'Agent.send_bundle_data'), floor=1)
     chk.run('C13.f', 'R-PAIR', 'queue then announce the same id; ids come from a counter that only increments', lambda ob: c13f(tree, ob), floor=3)
 
 
